@@ -27,13 +27,13 @@ def genFacts : Facts :=
 
 /-- The regenerated facts are the ones the oracle runs the model with.  The remaining shape
     facts justify the step granularity of the model: `needAll` is `!r.eager`; `wait` is
-    `waitAll` / one `waitOne`; `waitOne` guards on `num == 0` and decrements once before the
+    `waitAll` / one `waitOne`, `waitAll` loops `waitOne` until it reports false; `waitOne` guards on `num == 0` and decrements once before the
     receive; `submit` increments `num` next to every started execution; `updateChan` is the
     FIFO non-blocking top-up; the executor converts a panic into the task's error (so every
     started execution reaches its `finish` step). -/
 theorem facts_match :
     genFacts = Expected.C03.facts ∧ FactsC03.needAllIsNotEager = true ∧
-    FactsC03.waitDispatch = true ∧ FactsC03.waitOneCounts = true ∧
+    FactsC03.waitDispatch = true ∧ FactsC03.waitAllLoops = true ∧ FactsC03.waitOneCounts = true ∧
     FactsC03.submitCountsEach = true ∧ FactsC03.updateChanFifoNonBlocking = true ∧
     FactsC03.executorRecovers = true := by decide
 
